@@ -1,7 +1,7 @@
 (* Runs coq/Complex.v (extracted).
    G <entity> <entity> ...       defines the graph; entity = id:sup,sup:A|N:expr
         expr = - | prefix form:  L<id> | O(<e>;<e>;...) | A(...) | R(...)   (ONEOF / AND / ANDOR)
-   Q id id ...                   -> supports legal   (1/0 each) for that set
+   Q id id ...                   -> accepted legal   (1/0 each) for that set
    T id                          -> the tree built for a root (debug) *)
 open Conv
 open Complex
@@ -55,7 +55,7 @@ let () =
         print_string "ok\n"
       | "Q" :: ids ->
         let s = Stdlib.List.map (fun x -> n_of_int (int_of_string x)) ids in
-        print_string ((if supports !g s then "1" else "0") ^ " " ^ (if legal !g s then "1" else "0") ^ "\n")
+        print_string ((if accepted !g s then "1" else "0") ^ " " ^ (if legal !g s then "1" else "0") ^ "\n")
       | ["T"; r] -> print_string (show (root_tree !g (n_of_int (int_of_string r))) ^ "\n")
       | _ -> print_string "?\n"
     done
